@@ -5,7 +5,7 @@ pub open spec fn le<A: Ord>(a: A, b: A) -> bool { a.cmp_spec(&b) != Ordering::Gr
 pub open spec fn eqv<A: Ord>(a: A, b: A) -> bool { a.cmp_spec(&b) == Ordering::Equal }
 
 // A-ORD: the element type's Ord / PartialOrd implementation is a lawful total (pre)order.
-pub open spec fn lawful_ord<A: Ord>() -> bool {
+pub open spec fn ord_laws<A: Ord>() -> bool {
     &&& A::obeys_partial_cmp_spec()
     &&& A::obeys_cmp_spec()
     &&& forall|a: A, b: A| #[trigger] a.partial_cmp_spec(&b) == Some(a.cmp_spec(&b))
@@ -15,15 +15,20 @@ pub open spec fn lawful_ord<A: Ord>() -> bool {
     &&& forall|a: A, b: A, c: A| #[trigger] le(a, b) && #[trigger] le(b, c) ==> le(a, c)
 }
 
+// The form used in contracts: opaque, so that the quantified laws only enter the solver context of the
+// functions and lemmas that actually compare elements (they `reveal` it).
+#[verifier::opaque]
+pub open spec fn lawful_ord<A: Ord>() -> bool { ord_laws::<A>() }
+
 // A-CLONE: clone returns an equal value.
 pub open spec fn lawful_clone<A: Clone>() -> bool {
     forall|a: A, b: A| #[trigger] call_ensures(A::clone, (&a,), b) ==> a == b
 }
 
 // non-vacuity of A-ORD: it holds for the machine integers
-pub proof fn lemma_lawful_ord_u64() ensures lawful_ord::<u64>() {}
-pub proof fn lemma_lawful_ord_i64() ensures lawful_ord::<i64>() {}
-pub proof fn lemma_lawful_ord_usize() ensures lawful_ord::<usize>() {}
+pub proof fn lemma_lawful_ord_u64() ensures lawful_ord::<u64>() { reveal(lawful_ord); }
+pub proof fn lemma_lawful_ord_i64() ensures lawful_ord::<i64>() { reveal(lawful_ord); }
+pub proof fn lemma_lawful_ord_usize() ensures lawful_ord::<usize>() { reveal(lawful_ord); }
 
 pub open spec fn perm<A>(s: Seq<A>, t: Seq<A>) -> bool { s.to_multiset() == t.to_multiset() }
 
